@@ -180,13 +180,20 @@ def first_diff(x, y):
     return f"{x!r} != {y!r}"
 
 
+def is_integer_value(t):
+    """'of integer type': Python int or another numbers.Integral (e.g. a NumPy integer renders and compares like an int);
+    bool is not a tick, float / Fraction / Decimal are not integers even when their value is whole."""
+    import numbers
+    return isinstance(t, numbers.Integral) and not isinstance(t, bool)
+
+
 def non_int_times(msgs, view):
     bad = []
     for i, m in enumerate(msgs):
         t = m.time
         if t is None:
             continue
-        if type(t) is not int:
+        if type(t) is not int and not is_integer_value(t):
             bad.append(f"{view}[{i}] {m.message_type.value} time={t!r} ({type(t).__name__})")
     return bad
 
